@@ -7,7 +7,7 @@ from filter_functions import numeric
 from filter_functions import superoperator as so
 
 from .. import gens
-from ..common import arr2bits, bits2arr, driver
+from ..common import arr2bits, bits2arr, corr_script, driver
 from .c08 import spectrum
 
 THEOREMS = '''fourElementTraces_entries cumulant_general_eq_commutators cumulant_general_model
@@ -15,8 +15,31 @@ cumulant_single_qubit_eq_general shortcut_needs_pauli_basis second_order_antisym
 first_order_symmetric K_row_col_zero cumulant_real
 pow_row_col_zero sum_row_col_zero exp_row_col_unit K_row_col_zero_opt etm_trace_preserving_unital
 etm_sum_trace_preserving_unital etm_real_sum_trace_preserving_unital trace_preserving_iff_row
-unital_iff_col '''.split()
-LEAN_MODULES = ['FFVerif.Props.C09', 'FFVerif.Props.C09Exp']
+unital_iff_col '''.split() + [
+    # modules C09cCP (the first-order cumulant function / every Lindblad generator is conditionally
+    # completely positive; second order = unitary part), C09EtmCP / C09EtmCPLiou / C09EtmChoi (exp(K) is
+    # completely positive: Choi matrix PSD, verdict of liouville_is_CP), C10Shifts (only the antisymmetric
+    # part of the frequency shifts enters)
+    'FFVerif.C09.verdict_of_posSemidef', 'FFVerif.C09.verdict_false_of_eigenvalue', 'FFVerif.C09.choi_of_linear_map',
+    'FFVerif.C09.gks_generator_cCP', 'FFVerif.C09.lindblad_eq_gks', 'FFVerif.C09.lindblad_generator_cCP',
+    'FFVerif.C09.lindblad_cCP_verdict', 'FFVerif.C09.symmetrised_posSemidef', 'FFVerif.C09.cumulant_first_order_cCP',
+    'FFVerif.C09.cumulant_first_order_cCP_verdict', 'FFVerif.C09.second_order_unitary_part', 'FFVerif.C09.second_order_projected_choi_zero',
+    'FFVerif.C09.second_order_same_projected_choi', 'FFVerif.C09.cumulant_second_order_cCP', 'FFVerif.C09.cCP_necessary_transition_rates',
+    'FFVerif.C09.negative_rate_not_cCP', 'FFVerif.C09.cumulant_nonpsd_not_cCP', 'FFVerif.C09.isEigvals_of_isEigh',
+    'FFVerif.C09.exists_eigenvalue_le_diag', 'FFVerif.C09.verdict_false_of_diag', 'FFVerif.C09.cCP_test_rejects_negative_rate',
+    'FFVerif.Spec.norm_pow_sub_pow_le', 'FFVerif.Spec.norm_exp_le', 'FFVerif.Spec.norm_exp_sub_one_sub_le',
+    'FFVerif.Spec.tendsto_pow_exp', 'FFVerif.Spec.tendsto_pow_exp_matrix', 'FFVerif.Spec.exp_mem_cone_of_gks',
+    'FFVerif.C09.exp_gks_generator_cp', 'FFVerif.C09.exp_lindblad_cp', 'FFVerif.C09.cumulant_general_opt',
+    'FFVerif.C09.exp_cumulant_cp', 'FFVerif.C09.etm_completely_positive', 'FFVerif.C09.K1_finset_sum',
+    'FFVerif.C09.K2_finset_sum', 'FFVerif.C09.etm_sum_completely_positive', 'FFVerif.C09.cpCone_isCPLiou',
+    'FFVerif.C09.etm_isCPLiou', 'FFVerif.C09.etm_sum_isCPLiou', 'FFVerif.Spec.exists_kraus',
+    'FFVerif.Spec.cpCone_isCPChoi', 'FFVerif.C09.choi_cone', 'FFVerif.C09.choi_posSemidef_iff_kraus',
+    'FFVerif.C09.etm_choi_posSemidef', 'FFVerif.C09.etm_sum_choi_posSemidef', 'FFVerif.C09.exp_map_ofReal',
+    'FFVerif.C09.etm_real_sum_choi_posSemidef', 'FFVerif.C09.etm_CP_verdict', 'FFVerif.C09.exp_lindblad_choi_posSemidef',
+    'FFVerif.C10.cumulant_uses_antisymmetric_part', 'FFVerif.C10.cumulant_single_qubit_uses_antisymmetric_part', 'FFVerif.C10.cumulant_second_order_from_antisymmetric_part',
+    'FFVerif.C10.frequency_shifts_hermitian_part', 'FFVerif.C10.frequency_shifts_symmetric_part']
+LEAN_MODULES = ['FFVerif.Props.C09', 'FFVerif.Props.C09Exp', 'FFVerif.Props.C09cCP', 'FFVerif.Props.C09EtmCP',
+                'FFVerif.Props.C09EtmCPLiou', 'FFVerif.Props.C09EtmChoi', 'FFVerif.Props.C10Shifts']
 PINS = ['pinBasisArrayFinalize', 'pinFourElementTraces', 'pinErrorTransferMatrix', 'C09_cumulant_source_shape']
 GEN_SITES = ['einsum:numeric_calculate_cumulant_function_', 'einsum:basis_Basis_four_element_traces_',
              'const:numeric.calculate_cumulant_function']
@@ -29,7 +52,8 @@ RULES = ['correspondence: the cumulant function of one pair of noise sources fro
          'total and pulse-correlation variants); error transfer matrix = expm of the summed cumulant '
          'function, trace preserving, unital, completely positive (Choi eigenvalues), first-order K '
          'conditionally completely positive, second-order part antisymmetric; distinct = input hash']
-ASSUMPTIONS = ['complete positivity of exp K is validated (Choi eigenvalues), not proved']
+ASSUMPTIONS = ['complete positivity of exp K is proved for real symmetric positive-semidefinite decay amplitudes '
+               '(what the package forms for PSD spectra); the eigenvalue routine behind the verdict is an oracle']
 TRUSTED = ['oracle: scipy expm; sparse COO representation of the trace tensor validated by search']
 
 
@@ -54,6 +78,8 @@ def formula_K(C, Gamma, Delta=None):
 
 
 def correspondence(ctx):
+    # the CP / cCP tests themselves (projector, projected Choi matrix, default tolerance, verdict)
+    corr_script(ctx, 'corr_c09ccp', ['projq', 'projchoi', 'cpverdict', 'end-to-end verdict'])
     rng = ctx.rng('corr')
     lines, refs, comp = [], [], []
     for i in range(6 if ctx.tier == 'quick' else 40):
